@@ -156,6 +156,12 @@ def apply_known(kf, ob, v, rec, ctx, budget):
     names = {}
     for name, c in (ctx.names.items() if ctx is not None else []):
         names[name.replace('.', '_').replace('!', '_')] = c
+
+    def anypos(prefix):
+        """some drawn quantity whose name starts with prefix is positive (e.g. time spent in a blocking call)"""
+        cs = [c for n, c in (ctx.names.items() if ctx is not None else []) if n.split('!')[0] == prefix]
+        return z3.Or(*[c > 0 for c in cs]) if cs else z3.BoolVal(False)
+    ns['anypos'] = anypos
     try:
         wt = eval(w, ns, names)
     except Exception as e:
